@@ -48,6 +48,11 @@ class Prop(common.PropertyCheck):
         for i in range(self.budget(40, 300)):
             yield {'k': 'gate', 'n': [50, 200, 600][i % 3], 'data': ['clusters', 'ties', 'cont', 'uniform'][i % 4], 'cont': 'array', 'bins': ['edges', 'count', 'mixed'][i % 3],
                    'f': ['rand', 'k/n', 'default'][i % 3], 'sigma': ['zero_x', 'zero_y'][i % 2], 'nan': i % 4 == 0, 'inf': i % 5 == 0, 'seed': rng.randrange(1 << 30)}
+        # the same object gated twice with the same bins and smoothing, its events replaced in place in between: each answer follows the events present
+        for i in range(self.budget(24, 200)):
+            yield {'k': 'gate', 'n': [200, 600, 50][i % 3], 'data': ['clusters', 'cont', 'ties', 'uniform'][i % 4], 'cont': ['array', 'sample'][i % 2],
+                   'bins': ['edges', 'sample_linear', 'edges', 'sample_logicle'][i % 4] if i % 2 else 'edges', 'f': ['rand', 'k/n', 'default'][i % 3],
+                   'sigma': ['scalar', 'pair', 'small'][i % 3], 'nan': False, 'seed': rng.randrange(1 << 30), 'regate_same_object': True}
         for what in ('one_event_bin_mask', 'no_event_bin_mask'):
             yield {'k': 'bad', 'what': what}
         for what in ('f<0', 'f>1', 'f<0 tiny', 'f>1 tiny', 'f<0 all outside', 'one_channel', 'three_channels', 'three_channels_two_distinct', 'four_channels_two_distinct', 'one_event'):
@@ -192,6 +197,20 @@ class Prop(common.PropertyCheck):
         try:
             data, xy, bins, scale, f, sigma = self.make(case)
             import copy
+            if case.get('regate_same_object'):
+                # an earlier acquisition held in the same object: other events (the rows in reverse order, columns swapped, values mirrored inside
+                # their span), gated with the same bins and smoothing; then the events of this case are written back into the object
+                v = np.asarray(data)
+                keep = v.copy()
+                lo, hi = np.nanmin(keep[:, :2], axis=0), np.nanmax(keep[:, :2], axis=0)
+                other = keep.copy()
+                other[:, :2] = (lo + hi) - keep[::-1, :2]
+                v[...] = other.astype(v.dtype)
+                try:
+                    self.gate(data, copy.deepcopy(bins), scale, f, sigma)
+                except Exception:
+                    pass
+                v[...] = keep
             out = self.gate(data, copy.deepcopy(bins), scale, f, sigma)
         except Exception as e:
             return {'err': type(e).__name__ + ':' + str(e)[:100]}
